@@ -263,6 +263,9 @@ class FitYamlReader(YamlReaderMixin, FitDReprBase):
 
         _fit_results = yaml_doc.pop("fit_results", None)
         _fit_object._loaded_result_dict = to_numpy_arrays(_fit_results)
+        if _fit_type == "custom" and _fit_results is not None and _fit_results.get("parameter_values", None) is not None:
+            # there is no parametric model that could carry the parameter values of a custom fit
+            _fit_object._fitter.set_all_fit_parameter_values(_fit_results["parameter_values"])
         return _fit_object, yaml_doc
 
 
